@@ -44,41 +44,38 @@ def feature_independence(ctx):
 
 
 def selftest(ctx):
-    import mutants, selftest as st
+    """both-ways self-test of this property's cases, run by child processes (the rules are CPU-bound Python), each with its own
+    copy of the dependency cache; VERIF_SEED only rotates the order"""
+    import mutants, subprocess, sys
     cases = [c for c in mutants.CASES if ctx.prop in c['props']]
     seed = ctx.seed
-    # VERIF_SEED only rotates the order
     if cases:
         k = seed % len(cases)
         cases = cases[k:] + cases[:k]
     res = {'detected': 0, 'silent': 0, 'MISSED': [], 'FALSE-ALARM': [], 'skipped': [], 'does-not-compile': []}
     samples = []
-    from concurrent.futures import ThreadPoolExecutor
-    import threading
-    nworkers = min(4, max(1, len(cases)))
-    core.build_driver()
-    slots = list(range(nworkers))
-    slot_lock = threading.Lock()
-
-    def one(c):
-        with slot_lock:
-            i = slots.pop()
-        try:
-            c1 = dict(c, props=[ctx.prop])
-            r = st.run_case(c1, tag=f'st-{ctx.prop}-{i}', target=st.worker_target(i))
-            return c, r, st.judge(c1, r)
-        finally:
-            with slot_lock:
-                slots.append(i)
-    with ThreadPoolExecutor(nworkers) as ex:
-        outs = list(ex.map(one, cases))
-    for c, r, (verdict, why) in outs:
-        if verdict in ('detected', 'silent'):
-            res[verdict] += 1
-            if len(samples) < 4:
-                samples.append({'case': c['name'], 'kind': c['kind'], 'verdict': verdict, 'reported': (r.get('failed') or {}).get(ctx.prop, [])[:3]})
-        else:
-            res[verdict].append(c['name'] + ': ' + why[:160])
+    if not cases:
+        return res, samples, 0
+    jobs = min(8, len(cases))
+    here = os.path.dirname(os.path.abspath(__file__))
+    r = subprocess.run([sys.executable, os.path.join(here, 'selftest.py'), '-j', str(jobs), '--prop', ctx.prop] + [c['name'] for c in cases], capture_output=True, text=True)
+    kinds = {c['name']: c['kind'] for c in cases}
+    seen = set()
+    for line in r.stdout.splitlines():
+        parts = line.split(None, 4)
+        if len(parts) >= 4 and parts[2] in kinds and parts[0] in ('detected', 'silent', 'MISSED', 'FALSE-ALARM', 'skipped', 'does-not-compile'):
+            verdict, name = parts[0], parts[2]
+            seen.add(name)
+            why = parts[4] if len(parts) > 4 else ''
+            if verdict in ('detected', 'silent'):
+                res[verdict] += 1
+                if len(samples) < 4:
+                    samples.append({'case': name, 'kind': kinds[name], 'verdict': verdict})
+            else:
+                res[verdict].append(name + ': ' + why[:160])
+    for c in cases:
+        if c['name'] not in seen:
+            res['MISSED' if c['kind'] == 'mutant' else 'FALSE-ALARM'].append(c['name'] + ': no verdict (self-test worker failed: ' + r.stderr[-200:].replace('\n', ' ') + ')')
     return res, samples, len(cases)
 
 
